@@ -63,6 +63,9 @@ def gen_template(r, depth, env):
             if src[-1].startswith("{%"):
                 src[-1] = "{% " + f"{name} = {v}" + " %}"
             val.append(str(v))
+        elif k < 0.74 and val:
+            # a hole whose code leaves no value: contributes the empty string
+            src.append(r.choice(["{% ; %}", "{% ;; %}", "{% // nothing\n %}", "{% ; // c\n %}"])); val.append("")
         elif k < 0.8:
             vals = [r.randint(0, 9) for _ in range(r.randint(2, 4))]
             src.append("{% " + "; ".join(map(str, vals)) + " %}"); val.append(str(vals[-1]))
